@@ -322,13 +322,17 @@ class spawn(SpawnBase):
         and SIGINT). '''
 
         self.flush()
-        with _wrap_ptyprocess_err():
-            # PtyProcessError may be raised if it is not possible to terminate
-            # the child.
-            self.ptyproc.close(force=force)
+        try:
+            with _wrap_ptyprocess_err():
+                # PtyProcessError may be raised if it is not possible to
+                # terminate the child.
+                self.ptyproc.close(force=force)
+        finally:
+            # ptyprocess has released the descriptor even if the child could
+            # not be terminated: never keep the stale number around.
+            self.child_fd = -1
+            self.closed = True
         self.isalive()  # Update exit status from ptyproc
-        self.child_fd = -1
-        self.closed = True
 
     def isatty(self):
         '''This returns True if the file descriptor is open and connected to a
